@@ -7,8 +7,8 @@ from scipy.integrate import quad
 from scipy.special import ndtr
 
 ID = "C13"
-CASES = {"quick": 1500, "thorough": 40000}
-MIN_NONTRIVIAL = {"quick": 500, "thorough": 12000}
+CASES = {"quick": 1500, "thorough": 450000}
+MIN_NONTRIVIAL = {"quick": 500, "thorough": 52272}
 BR = ["|r|<0.3", "0.3<=|r|<0.75", "0.75<=|r|<0.925", "|r|>=0.925"]
 REQUIRED = ["agrees with reference bivariate normal CDF to 1e-7 [%s]" % b for b in BR] + [
     "values in [0,1]", "non-decreasing in each argument", "every rectangle has non-negative mass", "tails tend to 0 and 1",
